@@ -178,6 +178,10 @@ def run(rep: vlib.Reporter, tier: str, seed: int) -> None:
     install()
     pr = vlib.build_props("C05")
     rep.proof(pr)
+    pr2 = vlib.build_props("C05alg")          # associativity / order independence of inner-join trees, row-count bounds
+    rep.proof(pr2)
+    pr.ok = pr.ok and pr2.ok
+    pr.failed_files += pr2.failed_files
     rep.coverage["trusted_base"] += [
         "Spec/Rel.v (rel_join) is the relational specification and the oracle of record (evaluated by vm_compute)",
         "the planner (run_link, resolve_trekked_links, invert_link, fill_tfs_by_joinstep) and JoinStep._merge_data are NOT modelled: "
